@@ -197,14 +197,16 @@ def run_case(emit, cid, cs, rng, sample=False):
                                infeasible=bool(Fw == np.inf), at_epoch=int(p["epoch"])))
         if not R.leq(Fw, F0, rel=rel):
             viols.append(_viol(case, "objective-above-start", "F(start)=%r F(t=%d,epoch=%d)=%r" % (
-                F0, p["t"], p["epoch"], Fw), infeasible=bool(Fw == np.inf), at_epoch=int(p["epoch"])))
+                F0, p["t"], p["epoch"], Fw), infeasible=bool(Fw == np.inf), at_epoch=int(p["epoch"]),
+                increase=(Fw - F0) if np.isfinite(Fw) and np.isfinite(F0) else None))
         if not np.array_equal(p["w"], w0):
             changed = True
         prevF, prev = Fw, ("stop", p["t"], p["epoch"])
     Fret = _F(case, out["w"])
     if not R.leq(Fret, F0, rel=rel):
         viols.append(_viol(case, "objective-above-start", "F(start)=%r F(returned)=%r" % (F0, Fret),
-                           infeasible=bool(Fret == np.inf)))
+                           infeasible=bool(Fret == np.inf),
+                           increase=(Fret - F0) if np.isfinite(Fret) and np.isfinite(F0) else None))
     # ------------------------------------------------------------------ (ii) accepted extrapolations
     for i, (k, p) in enumerate(seq_all):
         if k != "extrap":
@@ -263,12 +265,13 @@ def run_case(emit, cid, cs, rng, sample=False):
     for e, Fe in chainF:
         if not R.leq(Fe, pf, rel=rel):
             viols.append(_viol(case, "objective-increases-with-budget", "boundary chain: F %r -> %r at budget %d" % (
-                pf, Fe, e), infeasible=bool(Fe == np.inf), boundary=True, at_epoch=int(e) - 1))
+                pf, Fe, e), infeasible=bool(Fe == np.inf), boundary=True, at_epoch=int(e) - 1,
+                increase=(Fe - pf) if np.isfinite(Fe) and np.isfinite(pf) else None))
         pf = Fe
     rec = dict(base, nontrivial=bool(len(stops) >= 3 and changed), count=counts,
                hist={"accepted_extrapolations": counts["extrap_accepted"], "warm": cs["warm"]})
     if viols:
-        rec.update(status="violated", viol=viols[0],
+        rec.update(status="violated", viol=viols[0], viols=viols[:40],
                    obs=dict(case=case.describe(), n_violations=len(viols), all=[v["detail"] for v in viols[:6]],
                             F0=F0, chain=chainF[:12], traj=[(s[0], s[1], s[3]) for s in stops[:30]]))
     else:
